@@ -143,6 +143,16 @@ func (g *Gen) tx(ty string, kv *KV) string {
 	return o
 }
 
+// acctIndex: position of a bech32 string in the account universe (0 if it is not one of them).
+func (g *Gen) acctIndex(a string) int {
+	for i, x := range g.acct {
+		if x == a {
+			return i
+		}
+	}
+	return 0
+}
+
 // pickv chooses among the n variants of one way to violate (or satisfy) a condition: at random in the random part of a
 // matrix, and in turn (forceVariant) in its deterministic preamble, where every variant of every condition is tried once
 // whatever the seed.
